@@ -988,6 +988,130 @@ def _none_guard_assigns(fn: ast.FunctionDef) -> bool:
     return changed[0]
 
 
+def _const_getattr(tree: ast.AST) -> bool:
+    """getattr(obj, "name") with a literal name and no default is the attribute access obj.name."""
+    changed = [False]
+
+    class T(ast.NodeTransformer):
+        def visit_Call(self, node):
+            node = self.generic_visit(node)
+            if isinstance(node.func, ast.Name) and node.func.id == "getattr" and len(node.args) == 2 and not node.keywords and isinstance(node.args[1], ast.Constant) \
+                    and isinstance(node.args[1].value, str) and node.args[1].value.isidentifier() and _simple(node.args[0]):
+                changed[0] = True
+                return ast.copy_location(ast.Attribute(value=node.args[0], attr=node.args[1].value, ctx=ast.Load()), node)
+            return node
+
+    T().visit(tree)
+    return changed[0]
+
+
+def _unroll_literal_loops(fn: ast.FunctionDef) -> bool:
+    """`for a, b in ((x1, y1), (x2, y2)): BODY` over a literal display of at most 6 entries -> BODY[x1,y1]; BODY[x2,y2]
+    (table-driven code written out; the loop variables must not be assigned in the body, no break/continue/else)."""
+    changed = [False]
+
+    def literal(e) -> bool:
+        return _simple(e) or (isinstance(e, (ast.Tuple, ast.List)) and all(literal(x) for x in e.elts)) or (isinstance(e, ast.UnaryOp) and isinstance(e.operand, ast.Constant))
+
+    def rewrite(stmts):
+        out = []
+        for st in stmts:
+            for fld in ("body", "orelse", "finalbody"):
+                sub = getattr(st, fld, None)
+                if isinstance(sub, list) and sub and isinstance(sub[0], ast.stmt) and not isinstance(st, (ast.FunctionDef, ast.ClassDef)):
+                    setattr(st, fld, rewrite(sub))
+            if isinstance(st, ast.For) and not st.orelse and isinstance(st.iter, (ast.Tuple, ast.List)) and 1 <= len(st.iter.elts) <= 6 and all(literal(e) for e in st.iter.elts):
+                tg = st.target
+                names = [tg.id] if isinstance(tg, ast.Name) else ([t.id for t in tg.elts] if isinstance(tg, ast.Tuple) and all(isinstance(t, ast.Name) for t in tg.elts) else None)
+                body_nodes = [x for b in st.body for x in ast.walk(b)]
+                if names and not any(isinstance(x, (ast.Break, ast.Continue, ast.FunctionDef, ast.Lambda)) for x in body_nodes) \
+                        and not any(isinstance(x, ast.Name) and x.id in names and isinstance(x.ctx, (ast.Store, ast.Del)) for x in body_nodes):
+                    ok = True
+                    copies = []
+                    for e in st.iter.elts:
+                        if isinstance(tg, ast.Name):
+                            sub = {names[0]: e}
+                        elif isinstance(e, (ast.Tuple, ast.List)) and len(e.elts) == len(names):
+                            sub = dict(zip(names, e.elts))
+                        else:
+                            ok = False
+                            break
+                        copies.append([_Renamer(sub, {}).visit(copy.deepcopy(b)) for b in st.body])
+                    if ok:
+                        for c in copies:
+                            out.extend(c)
+                        changed[0] = True
+                        continue
+            out.append(st)
+        return out
+
+    fn.body = rewrite(fn.body)
+    return changed[0]
+
+
+def _thread_none_flags(fn: ast.FunctionDef) -> bool:
+    """An if-chain every leaf of which ends by setting the same local to None or to a value, followed directly by
+    `if <local> is not None: BODY`: BODY moves into the leaves that set a value (jump threading on the flag)."""
+    changed = [False]
+
+    def leaves(ifst: ast.If) -> Optional[List[List[ast.stmt]]]:
+        out = []
+        for br in (ifst.body, ifst.orelse):
+            if not br:
+                return None
+            if len(br) == 1 and isinstance(br[0], ast.If):
+                sub = leaves(br[0])
+                if sub is None:
+                    return None
+                out += sub
+            else:
+                out.append(br)
+        return out
+
+    def flag_of(br: List[ast.stmt]) -> Optional[str]:
+        last = br[-1]
+        if isinstance(last, ast.Assign) and len(last.targets) == 1 and isinstance(last.targets[0], ast.Name):
+            return last.targets[0].id
+        return None
+
+    def definitely_value(e: ast.expr) -> bool:
+        return isinstance(e, ast.JoinedStr) or (isinstance(e, ast.Constant) and e.value is not None)
+
+    def rewrite(stmts):
+        out = []
+        i = 0
+        while i < len(stmts):
+            st = stmts[i]
+            for fld in ("body", "orelse", "finalbody"):
+                sub = getattr(st, fld, None)
+                if isinstance(sub, list) and sub and isinstance(sub[0], ast.stmt) and not isinstance(st, (ast.FunctionDef, ast.ClassDef)):
+                    setattr(st, fld, rewrite(sub))
+            nxt = stmts[i + 1] if i + 1 < len(stmts) else None
+            if isinstance(st, ast.If) and isinstance(nxt, ast.If) and not nxt.orelse and isinstance(nxt.test, ast.Compare) and len(nxt.test.ops) == 1 and isinstance(nxt.test.ops[0], ast.IsNot) \
+                    and isinstance(nxt.test.left, ast.Name) and isinstance(nxt.test.comparators[0], ast.Constant) and nxt.test.comparators[0].value is None:
+                m = nxt.test.left.id
+                lv = leaves(st)
+                if lv and all(flag_of(b) == m for b in lv):
+                    used_elsewhere = any(isinstance(x, ast.Name) and x.id == m and isinstance(x.ctx, ast.Load) for b in lv for s_ in b[:-1] for x in ast.walk(s_)) or \
+                        any(isinstance(x, ast.Name) and x.id == m for x in ast.walk(st.test))
+                    if not used_elsewhere:
+                        for b in lv:
+                            v = b[-1].value
+                            if isinstance(v, ast.Constant) and v.value is None:
+                                continue
+                            b.extend(copy.deepcopy(nxt.body) if definitely_value(v) else [copy.deepcopy(nxt)])
+                        out.append(st)
+                        changed[0] = True
+                        i += 2
+                        continue
+            out.append(st)
+            i += 1
+        return out
+
+    fn.body = rewrite(fn.body)
+    return changed[0]
+
+
 def normalize_sources(sources: Dict[str, str], table: Optional[Set[str]] = None) -> Tuple[Dict[str, str], List[str]]:
     table = table if table is not None else baseline_table()
     out = dict(sources)
@@ -1004,6 +1128,14 @@ def normalize_sources(sources: Dict[str, str], table: Optional[Set[str]] = None)
             if isinstance(st, ast.ClassDef):
                 _BASES[st.name] = [b.id for b in st.bases if isinstance(b, ast.Name)]
                 _METHODS[st.name] = {x.name for x in st.body if isinstance(x, ast.FunctionDef)}
+        unrolled = False
+        for st in tree.body:
+            for fn_ in ([st] if isinstance(st, ast.FunctionDef) else ([x for x in st.body if isinstance(x, ast.FunctionDef)] if isinstance(st, ast.ClassDef) else [])):
+                unrolled |= _unroll_literal_loops(fn_)
+        if unrolled:
+            changed_any = True
+            ast.fix_missing_locations(tree)
+            inlined.append(f"{modname}:<literal-table loops written out>")
         vm = _expand_vararg_maps(tree, modname, table)
         if vm:
             changed_any = True
@@ -1085,12 +1217,14 @@ def normalize_sources(sources: Dict[str, str], table: Optional[Set[str]] = None)
             # re-parse so that positions are those of the normal form, then tidy the aliases left by inlining
             tree = ast.parse(ast.unparse(tree))
             nts2 = {k: v for k, v in _namedtuple_table(tree).items() if _qual(modname, None, k) not in table}
+            _const_getattr(tree)
             for st in tree.body:
                 if isinstance(st, ast.FunctionDef):
                     _inline_local_closures(st)
                     _coalesce_aliases(st)
                     _canonical_loops(st)
                     _scalar_replace_records(st, nts2)
+                    _thread_none_flags(st)
                 elif isinstance(st, ast.ClassDef):
                     for s2 in st.body:
                         if isinstance(s2, ast.FunctionDef):
@@ -1098,6 +1232,7 @@ def normalize_sources(sources: Dict[str, str], table: Optional[Set[str]] = None)
                             _coalesce_aliases(s2)
                             _canonical_loops(s2)
                             _scalar_replace_records(s2, nts2)
+                            _thread_none_flags(s2)
             ast.fix_missing_locations(tree)
             out[rel] = ast.unparse(tree) + "\n"
     return out, inlined
